@@ -39,6 +39,10 @@ func main() {
 			fmt.Fprintln(os.Stderr, "gen:", err)
 			os.Exit(1)
 		}
+		if err := genExcludeSites(*outDir); err != nil {
+			fmt.Fprintln(os.Stderr, "gen:", err)
+			os.Exit(1)
+		}
 		return
 	}
 	w := out.New(*outDir)
@@ -60,6 +64,8 @@ func main() {
 		runCLI(w, *tier)
 	case "consumers":
 		runConsumers(w, *tier)
+	case "excludex":
+		runExcludeX(w, *tier)
 	default:
 		fmt.Fprintln(os.Stderr, "unknown mode")
 		os.Exit(2)
